@@ -287,6 +287,20 @@ func (self *Node) makePrenodes() {
 			}
 		}
 	}
+	// An argument which is a merge over a run-time-sized map call of a
+	// pipeline, none of whose referenced nodes fork with that call, still has
+	// one element per fork of that pipeline.
+	for _, bind := range self.call.ResolvedInputs() {
+		for _, fqid := range unanchoredMergeCalls(bind.Exp, nil) {
+			if n := self.top.allNodes[fqid]; n != nil && n != self &&
+				!strings.HasPrefix(self.call.GetFqid(), fqid+".") {
+				if refs == nil {
+					refs = make(map[Nodable]struct{})
+				}
+				refs[n] = struct{}{}
+			}
+		}
+	}
 	if len(refs) == 0 {
 		self.prenodes = nil
 	} else {
